@@ -440,11 +440,11 @@ func vsGenFile(T *sim.Tape, o vsGenOpts) string {
 				longDone = true
 				switch T.Intn(3, "longline-kind") {
 				case 0:
-					b.WriteString("note: " + strings.Repeat("v", 70000) + "\n")
+					b.WriteString("note: " + strings.Repeat("v", 66000) + "\n")
 				case 1:
-					b.WriteString(strings.Repeat("x", 70000) + "\n")
+					b.WriteString(strings.Repeat("x", 66000) + "\n")
 				default:
-					fmt.Fprintf(&b, "Benchmark%s 1 1 ns/op\n", strings.Repeat("L", 70000))
+					fmt.Fprintf(&b, "Benchmark%s 1 1 ns/op\n", strings.Repeat("L", 66000))
 				}
 			}
 		}
